@@ -346,7 +346,12 @@ func ruleSliceCap(r *Run) {
 				return
 			}
 			k, isC := constInt(sl.High)
-			if !isC || k <= 0 {
+			if !isC {
+				// the "extend into the capacity" idiom b[len(b):h]: h must be covered by the capacity
+				p.sliceCapVar(r, fn, sl, &site, &n)
+				return
+			}
+			if k <= 0 {
 				return
 			}
 			// operand kinds
@@ -467,6 +472,116 @@ func ruleSliceCap(r *Run) {
 	if n == 0 {
 		r.undecided("constant reslices", token.NoPos, "no constant-length reslice found on request paths")
 	}
+}
+
+// sliceCapVar handles b[len(b):h] with a non-constant h.
+func (p *Program) sliceCapVar(r *Run, fn *ssa.Function, sl *ssa.Slice, site, n *int) {
+	if _, ok := sl.X.Type().Underlying().(*types.Slice); !ok {
+		return
+	}
+	lc, ok := sl.Low.(*ssa.Call)
+	if !ok || calleeName(lc) != "builtin.len" || !p.sameExpr(lc.Call.Args[0], sl.X, 0) && !p.sameValue(lc.Call.Args[0], sl.X) {
+		return
+	}
+	h := p.stripConvAll(sl.High)
+	// h = cap(b) / len(b) of the same slice is always in range
+	if hc, ok := h.(*ssa.Call); ok && (calleeName(hc) == "builtin.cap" || calleeName(hc) == "builtin.len") {
+		if p.sameValue(hc.Call.Args[0], sl.X) || p.sameExpr(hc.Call.Args[0], sl.X, 0) {
+			return
+		}
+	}
+	*site++
+	*n++
+	key := fmt.Sprintf("%s/extend[len:%s]#%d", shortFunc(fn), "h", *site)
+	sameH := func(v ssa.Value) bool {
+		v = p.stripConvAll(v)
+		return v == h || p.sameValue(v, h)
+	}
+	// establishing facts: on the path the operand was (re)made with capacity >= h, or cap(operand) < h was excluded, or len(operand) < h ... no
+	isPhiOf := func(v ssa.Value) []ssa.Value {
+		if ph, ok := v.(*ssa.Phi); ok {
+			return ph.Edges
+		}
+		return []ssa.Value{v}
+	}
+	okAll := true
+	for _, src := range isPhiOf(sl.X) {
+		good := false
+		// (a) made with enough capacity
+		for _, o := range p.origins(src, originOpts{}) {
+			if ms, ok := o.(*ssa.MakeSlice); ok {
+				if sameH(ms.Cap) {
+					good = true
+				}
+				if c, ok := ms.Cap.(*ssa.Call); ok {
+					if callee := staticCallee(c); callee != nil && funcName(callee) == "larking.io/larking.growcap" && len(c.Call.Args) == 2 && sameH(c.Call.Args[1]) {
+						good = true
+					}
+				}
+			}
+		}
+		// (b) a cap test of that very value excluded cap < h at the slice
+		if !good {
+			for _, g := range guardsOf(sl.Block()) {
+				bo, ok := g.Cond.(*ssa.BinOp)
+				if !ok {
+					continue
+				}
+				cc, ok := bo.X.(*ssa.Call)
+				if !ok || calleeName(cc) != "builtin.cap" {
+					continue
+				}
+				if cc.Call.Args[0] != src && !p.sameValue(cc.Call.Args[0], src) {
+					continue
+				}
+				if sameH(bo.Y) && ((bo.Op == token.LSS && !g.True) || (bo.Op == token.GEQ && g.True)) {
+					good = true
+				}
+			}
+			// the phi edge itself comes from the false edge of `cap(src) < h`
+			if ph, ok := sl.X.(*ssa.Phi); ok {
+				for i, e := range ph.Edges {
+					if e != src {
+						continue
+					}
+					pred := ph.Block().Preds[i]
+					for _, g := range append(guardsOf(pred), edgeFact(pred, ph.Block())...) {
+						bo, ok := g.Cond.(*ssa.BinOp)
+						if !ok {
+							continue
+						}
+						cc, ok := bo.X.(*ssa.Call)
+						if !ok || calleeName(cc) != "builtin.cap" || (cc.Call.Args[0] != src && !p.sameValue(cc.Call.Args[0], src)) {
+							continue
+						}
+						if sameH(bo.Y) && ((bo.Op == token.LSS && !g.True) || (bo.Op == token.GEQ && g.True)) {
+							good = true
+						}
+					}
+				}
+			}
+		}
+		if !good {
+			okAll = false
+		}
+	}
+	r.check(okAll, key, sl.Pos(), "the buffer is extended to a bound that its capacity is known to cover (made with that capacity, or a cap test of that same bound)",
+		"the buffer is extended with b[len(b):h] although its capacity is not known to cover h: the capacity test / allocation uses another quantity than the bound that is sliced to (slice bounds out of range for sizes within that difference)")
+}
+
+// edgeFact: the fact carried by the CFG edge pred -> succ when pred ends in an If.
+func edgeFact(pred, succ *ssa.BasicBlock) []guardFact {
+	ifi := blockIf(pred)
+	if ifi == nil || len(pred.Succs) != 2 || pred.Succs[0] == pred.Succs[1] {
+		return nil
+	}
+	if pred.Succs[0] == succ {
+		return []guardFact{{ifi.Cond, true, ifi}}
+	}
+	if pred.Succs[1] == succ {
+		return []guardFact{{ifi.Cond, false, ifi}}
+	}
+	return nil
 }
 
 // ---------------------------------------------------------------------------
